@@ -159,6 +159,16 @@ theorem sat_list_as_set (n k : Nat) (vars vars' : List Nat) (hv : ∀ x ∈ vars
     sat_up_to_k_canon n k vars' hv']
   exact ⟨by congr 1; exact canon_congr (fun v => by rw [hc v]), by congr 1; exact canon_congr (fun v => by rw [hc v])⟩
 
+/-- `k` is an unbounded natural in the model; every `k` beyond the length of the list gives the same result as
+    `length + 1` rounds (the constant false for "exactly", the constant true for "at most" — see the `_canon`
+    theorems): in particular nothing special happens at 2^8, 2^16, 2^32 or `usize::MAX`. The driver uses this to
+    replay `k` rounds with `min k (length + 1)` rounds. -/
+theorem sat_k_beyond_length (n k : Nat) (vars : List Nat) (hk : vars.length + 1 < k) :
+    mkSatExactlyK n k vars = mkSatExactlyK n (vars.length + 1) vars ∧
+    mkSatUpToK n k vars = mkSatUpToK n (vars.length + 1) vars := by
+  obtain ⟨a, b⟩ := sat_beyond_length n k (vars.length + 1) vars (by omega) (by omega)
+  exact ⟨a, b (by omega) (by omega)⟩
+
 /-- a listed variable that is not in the set trips the assertion of `mk_conjunctive_clause` -/
 theorem sat_out_of_range (n k : Nat) (vars : List Nat) (x : Nat) (hx : x ∈ vars) (hxn : n ≤ x) :
     (∃ m, mkSatExactlyK n k vars = .panic m) ∧ ∃ m, mkSatUpToK n k vars = .panic m := by
@@ -166,6 +176,13 @@ theorem sat_out_of_range (n k : Nat) (vars : List Nat) (x : Nat) (hx : x ∈ var
   exact ⟨⟨m, by simp [mkSatExactlyK, hm]⟩, ⟨m, by simp [mkSatUpToK, hm]⟩⟩
 
 /-! ## non-vacuity -/
+
+/-- 65 536 rounds over two of four variables: the constant false / the constant true -/
+example : mkSatExactlyK 4 65536 [1, 3] = .ok #[⟨4, 0, 0⟩] ∧ mkSatUpToK 4 65536 [1, 3] = .ok #[⟨4, 0, 0⟩, ⟨4, 1, 1⟩] := by
+  obtain ⟨a, b⟩ := sat_k_beyond_length 4 65536 [1, 3] (by decide)
+  rw [a, b, sat_exactly_k_canon 4 _ [1, 3] (by decide), sat_up_to_k_canon 4 _ [1, 3] (by decide)]
+  exact ⟨congrArg Outcome.ok (by decide), congrArg Outcome.ok (by decide)⟩
+
 
 /-- an acceptable list (with an empty name and a non-ASCII one) -/
 example : Acceptable 65533 ["a", "", "é b"] := ⟨by decide, by decide, by decide⟩
